@@ -45,6 +45,17 @@ def audit(prop, obligations, status):
         byfam.setdefault(fam, []).append((mod, thm))
     adir = os.path.join(build.WORK, "audit")
     os.makedirs(adir, exist_ok=True)
+    # the audit of an unchanged build (same content hash of /repo's tree and of every source under /verif) with the same
+    # obligations gives the same answer: reuse it (only a fully successful audit is remembered)
+    cpath = os.path.join(adir, "cache_%s.json" % prop)
+    ckey = [status.get("key"), [list(o) for o in obligations]]
+    if status.get("key") and not status.get("errors"):
+        try:
+            c = json.load(open(cpath))
+            if c.get("ckey") == ckey and all(os.path.exists(os.path.join(build.COQ, f, m + ".vo")) for f, m, _ in obligations):
+                return {tuple(o): True for o in obligations}, ["audit reused from the identical build (content hash %s)" % str(status.get("key"))[:12]] + c.get("log", [])
+        except Exception:
+            pass
     for fam, items in byfam.items():
         famdir = os.path.join(build.COQ, fam)
         missing = set(status.get("coq", {}).get(fam, {}).get("missing", ["*"]))
@@ -90,6 +101,11 @@ def audit(prop, obligations, status):
             res[(fam, mod, thm)] = bool(good) and ("Closed under the global context" in txt)
             if not res[(fam, mod, thm)]:
                 logs.append("%s.%s: %s" % (mod, thm, txt.strip()[:300] or "not checked (rc=%d)" % rc))
+    if obligations and all(res.get(tuple(o)) for o in obligations) and status.get("key") and not status.get("errors"):
+        try:
+            json.dump({"ckey": ckey, "log": logs[-3:]}, open(cpath, "w"))
+        except Exception:
+            pass
     return res, "\n".join(logs)
 
 
